@@ -26,12 +26,17 @@ git -C /repo worktree remove --force "$W"
 echo "build=$BUILD suite=$SUITE demo_with_change=$DEMO_WITH (want !=0) demo_without_change=$DEMO_WITHOUT (want 0)"
 CONFIRMED=false
 if [ $BUILD -eq 0 ] && [ $SUITE -eq 0 ] && [ $DEMO_WITH -ne 0 ] && [ $DEMO_WITHOUT -eq 0 ]; then CONFIRMED=true; fi
-# run the checks against /repo with the change applied
+# run the checks against a scratch worktree with the change applied (FATFS_PATH), never against /repo itself
 CAUGHT=""
 : >"$OUT/check_output.txt"
-if git -C /repo apply "$OUT/patch.diff"; then
+W2=/tmp/confirm/$ID-run
+rm -rf "$W2"
+git -C /repo worktree add -q --detach "$W2" HEAD || exit 2
+if git -C "$W2" apply "$OUT/patch.diff"; then
+  export VERIF_OUT=/tmp/confirm/out-$ID
+  mkdir -p $VERIF_OUT
   for c in $CHECKS; do
-    timeout 900 /verif/check $c quick >"/tmp/confirm/$ID.$c.out" 2>&1; rc=$?
+    FATFS_PATH="$W2" timeout 1200 /verif/check $c quick >"/tmp/confirm/$ID.$c.out" 2>&1; rc=$?
     if grep -q "^VIOLATION property=$c" "/tmp/confirm/$ID.$c.out"; then
       CAUGHT="$CAUGHT $c"
       { echo "== $c (exit $rc)"; grep -A3 "^VIOLATION" "/tmp/confirm/$ID.$c.out" | cut -c1-400 | head -24; } >>"$OUT/check_output.txt"
@@ -40,11 +45,11 @@ if git -C /repo apply "$OUT/patch.diff"; then
     fi
     rm -f "/tmp/confirm/$ID.$c.out"
   done
-  git -C /repo checkout -- .
+  rm -rf $VERIF_OUT
 else
-  echo "patch does not apply to /repo"
+  echo "patch does not apply to the scratch worktree"
 fi
-git -C /repo status --short | grep -v '^??' | head -3
+git -C /repo worktree remove --force "$W2"
 python3 - "$OUT" "$ID" "$PROP" "$CONFIRMED" "$BUILD" "$SUITE" "$DEMO_WITH" "$DEMO_WITHOUT" "$CAUGHT" "$CHECKS" <<'PY'
 import json,sys,os
 out,id_,prop,conf,build,suite,dw,dwo,caught,checks=sys.argv[1:11]
